@@ -16,9 +16,13 @@ Ordered field, `PlaneLaws T` (`sin² + cos² = 1`, the two co-function laws, `sq
                                 `totalLength = 0`): a recorded foot implies `begin0.y − check2d.y ≤ along + |distance|` and
                                 `depthRef ≤ (sr − begin0.y) + along` (the foot's depth is at most its along-distance).
 * `C07_local_le_maxima`         for sections / segments of the feature and fractions in `[0,1]`: the interpolated total length is
-                                `≤ maximum_total_slab_length`, the interpolated thickness `≤ maximum_slab_thickness`, which is `≥ 0`.
+                                `≤ maximum_total_slab_length`, the interpolated thickness `≤ maximum_slab_thickness`, which is `≥ 0`,
+                                and — slabs — the interpolated top truncation is `≥ −maximum_slab_thickness`
+                                (`maximum_slab_thickness` takes the negated top truncations into account since the upstream repair
+                                'depth cut-off ignored material above the slab surface').
 * `C07_depth_cutoff_sound_partial`  the two combined with the membership ranges `lineInside` (slab `tt ≤ d ≤ th ∧ 0 ≤ a ≤ maxLen`,
-                                fault `|d| ≤ th/2 ∧ 0 < a ≤ maxLen`): the third conjunct of the culling pre-test is true.
+                                fault `|d| ≤ th/2 ∧ 0 < a ≤ maxLen`): the third conjunct of the culling pre-test is true
+                                (slabs and faults; no hypothesis on the top truncation any more).
 
 What is MISSING for `C07_depth_cutoff_sound_full` (a `Prop`, not proved):
 1. circular pieces (dip varying along a segment; `StraightWalk` excludes them) — the same argument with the arc length, needs the
@@ -30,10 +34,12 @@ What is MISSING for `C07_depth_cutoff_sound_full` (a `Prop`, not proved):
 3. that the numbers tested by the membership are those of the loop (`pd.distanceFromPlane = s.distance`, `pd.distanceAlongPlane =
    s.along`: the last lines of `distancePointFromCurvedPlanes`), and `fractionOfSection, fractionOfSegment ∈ [0,1]` (the Bezier
    acceptance window allows `1e-8` beyond both ends: `C19_bezier_accept_window`);
-4. for slabs `|d| ≤ thickness` needs the top truncation not below `−maximum_slab_thickness` (hypothesis `htt`; trivially true for
-   the usual non-negative truncations).  Without it the statement is false at the level of plane geometry: an overturned slab
-   (dip 135°, length 300 km, thickness 100 km) with top truncation −300 km has the member `a = 300 km`, `d = −300 km` at
-   `a·sin θ + d·cos θ ≈ 424 km > 400 km` below the trench surface (not replayed on the library).
+History: an earlier revision needed the hypothesis `htt` (slab top truncation not below `−maximum_slab_thickness`) and recorded a
+plane-geometry counterexample without it (overturned slab, dip 135°, length 300 km, thickness 100 km, top truncation −300 km: the
+member `a = 300 km`, `d = −300 km` lies ≈ 424 km > 400 km below the trench surface).  Replayed on the library it was a genuine defect
+(members at 405–423 km discarded by the cut-off); it was repaired upstream (`maximum_slab_thickness` now also takes the negated top
+truncations of a slab), the model follows, and `htt` is now the theorem `neg_maxThickness_le_ttLocal` (last part of
+`C07_local_le_maxima`).  Faults need nothing: `|d| ≤ th/2` does not involve the top truncation.
 -/
 import GwbVerif.Proofs.CullDepth
 import GwbVerif.Proofs.LineInstances
@@ -69,19 +75,22 @@ theorem C07_depth_walk_bound (T : Transc F) (L : PlaneLaws T) (dm : DepthMethod)
     s0.endSeg.y - c.y ≤ s.along + |s.distance| ∧ s.depthRef ≤ sr - s0.endSeg.y + s.along :=
   segmentLoop_depth_bound T L dm onlyPositive sr fraction c angsCur angsNext lensCur lensNext s0 s h1 h2 h3 hf ht hw hs hfound
 
-/-- **C07 (depth)** the feature-wide maxima bound the local (interpolated) total length and thickness -/
+/-- **C07 (depth)** the feature-wide maxima bound the local (interpolated) total length and thickness, and for slabs the negated
+local top truncation -/
 theorem C07_local_le_maxima (T : Transc F) (f : LineFeature F) (secCur secNext : List (Segment F)) (cur next : Segment F) (sf gf : F)
     (h1 : secCur ∈ f.sections) (h2 : secNext ∈ f.sections) (hc : cur ∈ secCur) (hn : next ∈ secNext)
     (hs0 : 0 ≤ sf) (hs1 : sf ≤ 1) (hg0 : 0 ≤ gf) (hg1 : gf ≤ 1) :
     @maxLenLocal F (fieldScalar T) secCur secNext sf ≤ @LineFeature.maxTotalLength F (fieldScalar T) f ∧
     @Segment.thLocal F (fieldScalar T) cur next sf gf ≤ @LineFeature.maxThickness F (fieldScalar T) f ∧
-    0 ≤ @LineFeature.maxThickness F (fieldScalar T) f :=
+    0 ≤ @LineFeature.maxThickness F (fieldScalar T) f ∧
+    (f.isFault = false → -@LineFeature.maxThickness F (fieldScalar T) f ≤ @Segment.ttLocal F (fieldScalar T) cur next sf gf) :=
   ⟨maxLenLocal_le T f secCur secNext sf h1 h2 hs0 hs1, thLocal_le T f secCur secNext cur next sf gf h1 h2 hc hn hs0 hs1 hg0 hg1,
-    maxThickness_nonneg T f⟩
+    maxThickness_nonneg T f,
+    fun hf => neg_maxThickness_le_ttLocal T f hf secCur secNext cur next sf gf h1 h2 hc hn hs0 hs1 hg0 hg1⟩
 
 /-- **C07 (depth), partial**: a point that the straight-piece walk places at `(s.distance, s.along)` and that passes the membership
 ranges for these two numbers satisfies the depth half of the culling pre-test — provided the walk started at the trench surface with
-`start height − check height = depth − min depth` (`hframe`) and, for slabs, the top truncation is not below `−max thickness`. -/
+`start height − check height = depth − min depth` (`hframe`).  Slabs and faults alike; no hypothesis on the top truncation. -/
 theorem C07_depth_cutoff_sound_partial (T : Transc F) (L : PlaneLaws T) (f : LineFeature F) (q : Query F)
     (dm : DepthMethod) (sr fraction : F) (c : P2 F)
     (angsCur angsNext : List (P2 F)) (lensCur lensNext : List F) (s0 s : SegState F)
@@ -95,13 +104,12 @@ theorem C07_depth_cutoff_sound_partial (T : Transc F) (L : PlaneLaws T) (f : Lin
     (hm1 : secCur ∈ f.sections) (hm2 : secNext ∈ f.sections) (hc : cur ∈ secCur) (hn : next ∈ secNext)
     (hs0 : 0 ≤ sf) (hs1 : sf ≤ 1) (hg0 : 0 ≤ gf) (hg1 : gf ≤ 1)
     (hin : @lineInside F (fieldScalar T) f.isFault s.distance s.along (@Segment.thLocal F (fieldScalar T) cur next sf gf)
-      (@Segment.ttLocal F (fieldScalar T) cur next sf gf) (@maxLenLocal F (fieldScalar T) secCur secNext sf))
-    (htt : f.isFault = false → -@LineFeature.maxThickness F (fieldScalar T) f ≤ @Segment.ttLocal F (fieldScalar T) cur next sf gf) :
+      (@Segment.ttLocal F (fieldScalar T) cur next sf gf) (@maxLenLocal F (fieldScalar T) secCur secNext sf)) :
     q.depth - f.minDepth ≤ @LineFeature.maxTotalLength F (fieldScalar T) f + @LineFeature.maxThickness F (fieldScalar T) f ∧
     @decide (q.depth - f.minDepth ≤ @LineFeature.maxTotalLength F (fieldScalar T) f + @LineFeature.maxThickness F (fieldScalar T) f)
       (@Scalar.decLe F (fieldScalar T) _ _) = true := by
   obtain ⟨hb, _⟩ := C07_depth_walk_bound T L dm f.isFault sr fraction c angsCur angsNext lensCur lensNext s0 s h1 h2 h3 hf ht hw hs hfound
-  obtain ⟨m1, m2, m3⟩ := C07_local_le_maxima T f secCur secNext cur next sf gf hm1 hm2 hc hn hs0 hs1 hg0 hg1
+  obtain ⟨m1, m2, m3, htt⟩ := C07_local_le_maxima T f secCur secNext cur next sf gf hm1 hm2 hc hn hs0 hs1 hg0 hg1
   have key : s.along ≤ @LineFeature.maxTotalLength F (fieldScalar T) f ∧ |s.distance| ≤ @LineFeature.maxThickness F (fieldScalar T) f := by
     unfold lineInside at hin
     cases hfault : f.isFault with
@@ -140,14 +148,14 @@ theorem C07_depth_cutoff_sound_partial (T : Transc F) (L : PlaneLaws T) (f : Lin
 end field
 
 /-- **C07 (depth), full statement — NOT proved**: over the reals with the real `sqrt, sin, cos, tan, acos, π` (and `ε > 0`, `+∞` above
-every number that occurs), for a well-formed slab or fault with non-negative top truncations, every member of the un-culled feature
-satisfies the depth half of the culling pre-test.  See the header for the four missing pieces. -/
+every segment length), for a well-formed slab or fault, every member of the un-culled feature satisfies the depth half of the
+culling pre-test.  See the header for the three missing pieces. -/
 def C07_depth_cutoff_sound_full : Prop :=
   ∀ (T : Transc ℝ), T.sqrt = Real.sqrt → T.sin = Real.sin → T.cos = Real.cos → T.tan = Real.tan → T.acos = Real.arccos →
-    T.pi = Real.pi → 0 < T.eps → (∀ x : ℝ, x < T.inf) →
+    T.pi = Real.pi → 0 < T.eps →
     ∀ (f : LineFeature ℝ) (ctx : Ctx ℝ) (q : Query ℝ) (h : LineHit ℝ),
       @LineFeature.WellFormed ℝ f →
-      (∀ sec ∈ f.sections, ∀ s ∈ sec, 0 ≤ s.topTruncation.x ∧ 0 ≤ s.topTruncation.y) →
+      (∀ sec ∈ f.sections, ∀ s ∈ sec, s.length < T.inf) →
       @LineFeature.coversBody ℝ (fieldScalar T) f ctx q = .ok (some h) →
       q.depth - f.minDepth ≤ @LineFeature.maxTotalLength ℝ (fieldScalar T) f + @LineFeature.maxThickness ℝ (fieldScalar T) f
 
